@@ -27,6 +27,21 @@ import rsx
 from rsx import Edit, LostAnchor
 
 REPO = os.environ.get('VERIF_REPO', '/repo')
+# sensitivity self-test only: {relative path: text} consulted before /repo (never written anywhere)
+import threading
+_TL = threading.local()
+
+
+def set_overlay(overlay: dict | None):
+    _TL.overlay = dict(overlay or {})
+
+
+def read_repo(relfile: str) -> str:
+    ov = getattr(_TL, 'overlay', None)
+    if ov and relfile in ov:
+        return ov[relfile]
+    with open(os.path.join(REPO, relfile)) as f:
+        return f.read()
 
 DROP_ATTRS = ('inline', 'cold', 'track_caller', 'default', 'allow', 'must_use', 'doc', 'cfg_attr')
 
@@ -134,9 +149,8 @@ def _tok_range(it: rsx.Item):
 
 def build_item(spec: dict, sections: dict, substs: list, defines: set, log: list, twin: bool = False):
     relfile = spec['file']
-    path = os.path.join(REPO, relfile)
     try:
-        src = open(path).read()
+        src = read_repo(relfile)
     except OSError as e:
         raise LostAnchor(f'{relfile}: {e}')
     kind = spec.get('kind', 'fn')
@@ -539,7 +553,7 @@ def assemble(template: str, defines: set | None = None) -> Assembled:
             spec = _parse_kv(s[len('//@types'):])
             relfile = spec['file']
             try:
-                fsrc = open(os.path.join(REPO, relfile)).read()
+                fsrc = read_repo(relfile)
             except OSError as e:
                 raise LostAnchor(f'{relfile}: {e}')
             only = set(x for x in spec.get('only', '').split(',') if x)
